@@ -84,6 +84,33 @@ mod harness {
         }
     }
 
+    static STALL_STARTED: AtomicUsize = AtomicUsize::new(0);
+
+    fn stalls_on_first(x: u64) -> u64 {
+        STALL_STARTED.fetch_add(1, Ordering::SeqCst);
+        if x == 0 {
+            std::thread::sleep(std::time::Duration::from_millis(400));
+        }
+        x
+    }
+
+    /// While the consumer waits for a stalled task the other workers must not be dealt the rest of the
+    /// input: at most one outstanding task per worker.
+    #[test]
+    fn harness_stalled_task_does_not_unleash_read_ahead() {
+        let _g = lock();
+        for threads in [2usize, 4] {
+            STALL_STARTED.store(0, Ordering::SeqCst);
+            let mut it = parallel_map(stalls_on_first, 0..500u64, threads);
+            let first = it.next();
+            assert_eq!(first, Some(0));
+            let started = STALL_STARTED.load(Ordering::SeqCst);
+            assert!(started <= 2 * threads + 2,
+                "{started} tasks were started while the consumer waited for the first (stalled) result, threads={threads}");
+            drop(it);
+        }
+    }
+
     #[test]
     fn harness_early_drop_joins_all_workers_at_every_position() {
         let _g = lock();
